@@ -1,7 +1,366 @@
-//! (stub) driver module - see tools/HOWTO.md
-use crate::util::Args;
+//! C06 driver: XBin compression is transparent and conforms to the XBin specification.
+//!
+//! One `xb` event per buffer: source cells, the compressed and the uncompressed file as the engine wrote them
+//! (header / length of the palette+font tables that were cut out / image bytes up to EOF), and the engine's own
+//! decode of both files.  Everything is judged by spec/codec/Trace_XBin.tla.
+//!
+//! Cases: (1) the small-scope classes exported by TLC from Gen_XBin (gen/xbin.ndjson): every row of the class is
+//! one row of some buffer (rows are packed 200 per buffer); (2) seeded random buffers 1..=200 x 1..=30.
+use crate::util::{guard, msg_class, panic_site, rng, Args, Out};
+use icy_engine::{AttributedChar, BitFont, Buffer, IceMode, SaveOptions, TextAttribute, TextPane};
+use rand::Rng;
+use serde_json::{json, Value};
+use std::path::Path;
 
-pub fn c06(_a: &Args) {
-    eprintln!("c06: driver not built yet");
-    std::process::exit(2);
+pub fn pack(ch: u32, fg: u32, bg: u32, bl: u32, pg: u32) -> u32 {
+    ch + 256 * fg + 4096 * bg + 65536 * bl + 131072 * pg
+}
+
+/// Engine cell -> packed code (same layout as `pack`, + 262144*bold + 524288*invisible); anything that does not fit
+/// the layout becomes a code >= 2^24 that can never equal a source code.
+pub fn pack_cell(c: AttributedChar) -> u32 {
+    let ch = c.ch as u32;
+    let fg = c.attribute.get_foreground();
+    let bg = c.attribute.get_background();
+    let pg = c.get_font_page() as u32;
+    if ch > 255 || fg > 15 || bg > 15 || pg > 1 {
+        return (1 << 24) + (ch & 0xFF) + ((fg & 0xF) << 8) + ((bg & 0xF) << 12) + ((pg as u32 & 0xF) << 16);
+    }
+    pack(ch, fg, bg, c.attribute.is_blinking() as u32, pg) + 262_144 * (c.attribute.is_bold() as u32) + 524_288 * (!c.is_visible() as u32)
+}
+
+pub fn unpack_cell(code: u32) -> AttributedChar {
+    let mut at = TextAttribute::new((code >> 8) & 15, (code >> 12) & 15);
+    at.set_is_blinking((code >> 16) & 1 == 1);
+    at.set_font_page(((code >> 17) & 1) as usize);
+    AttributedChar::new(char::from_u32(code & 255).unwrap(), at)
+}
+
+pub fn cells_of(buf: &Buffer) -> Value {
+    let (w, h) = (buf.get_width(), buf.get_height());
+    let mut v = Vec::with_capacity((w.max(0) * h.max(0)) as usize);
+    for y in 0..h {
+        for x in 0..w {
+            v.push(pack_cell(buf.get_char((x, y))));
+        }
+    }
+    json!({"st":"ok","w":w,"h":h,"cells":v})
+}
+
+pub struct Case {
+    pub k: &'static str,
+    pub w: i32,
+    pub h: i32,
+    pub ice: bool,
+    pub cells: Vec<u32>,
+    pub sauce: bool,
+    pub ml: bool,
+}
+
+fn second_font() -> BitFont {
+    BitFont::from_ansi_font_page(42).unwrap()
+}
+
+pub fn build(case: &Case, font1: &BitFont) -> (Buffer, u32) {
+    let mut buf = Buffer::new((case.w, case.h));
+    buf.is_terminal_buffer = false;
+    buf.ice_mode = if case.ice { IceMode::Ice } else { IceMode::Blink };
+    let mut pages = [false; 2];
+    for (i, &c) in case.cells.iter().enumerate() {
+        let (x, y) = (i as i32 % case.w, i as i32 / case.w);
+        pages[((c >> 17) & 1) as usize] = true;
+        buf.layers[0].set_char((x, y), unpack_cell(c));
+    }
+    if pages[1] {
+        buf.set_font(1, font1.clone());
+    }
+    (buf, pages[0] as u32 + pages[1] as u32)
+}
+
+/// Split a file the engine wrote into header / (cut) tables / image..EOF.  The cut length is re-derived by
+/// Trace_XBin from the header (MidLen) and a disagreement is a tool error.
+fn file_rec(res: Result<Result<Vec<u8>, String>, crate::util::PanicInfo>) -> (Value, Option<Vec<u8>>) {
+    match res {
+        Ok(Ok(bytes)) => {
+            if bytes.len() < 11 {
+                return (json!({"st":"ok","hdr":bytes,"mid":0,"img":[]}), Some(bytes));
+            }
+            let (fh, flags) = (bytes[9] as usize, bytes[10]);
+            let mut mid = 0;
+            if flags & 1 != 0 { mid += 48; }
+            if flags & 2 != 0 { mid += fh * if flags & 16 != 0 { 512 } else { 256 }; }
+            let mid = mid.min(bytes.len() - 11);
+            (json!({"st":"ok","hdr":&bytes[..11],"mid":mid,"img":&bytes[11 + mid..]}), Some(bytes))
+        }
+        Ok(Err(e)) => (json!({"st":format!("err:{}", msg_class(&e)),"hdr":[],"mid":0,"img":[]}), None),
+        Err(p) => (json!({"st":format!("panic:{}", panic_site(&p)),"hdr":[],"mid":0,"img":[]}), None),
+    }
+}
+
+fn load_rec(bytes: &Option<Vec<u8>>) -> Value {
+    let Some(bytes) = bytes else { return json!({"st":"nofile","w":0,"h":0,"cells":[]}) };
+    match guard(|| Buffer::from_bytes(Path::new("c06.xb"), true, bytes).map_err(|e| e.to_string())) {
+        Ok(Ok(b)) => cells_of(&b),
+        Ok(Err(e)) => json!({"st":format!("err:{}", msg_class(&e)),"w":0,"h":0,"cells":[]}),
+        Err(p) => json!({"st":format!("panic:{}", panic_site(&p)),"w":0,"h":0,"cells":[]}),
+    }
+}
+
+struct Sink {
+    outs: Vec<Out>,
+    bytes: Vec<usize>,
+    id: u64,
+    font1: BitFont,
+    rows: std::collections::BTreeMap<String, u64>,
+}
+
+impl Sink {
+    fn emit(&mut self, case: &Case) {
+        let (buf, nf) = build(case, &self.font1);
+        let mut opts = SaveOptions::new();
+        opts.lossles_output = true;
+        opts.save_sauce = case.sauce;
+        opts.compress = true;
+        let (c, cb) = file_rec(guard(|| buf.to_bytes("xb", &opts).map_err(|e| e.to_string())));
+        opts.compress = false;
+        let (r, rb) = file_rec(guard(|| buf.to_bytes("xb", &opts).map_err(|e| e.to_string())));
+        let dc = load_rec(&cb);
+        let dr = load_rec(&rb);
+        self.id += 1;
+        let ev = json!({"ev":"xb","k":case.k,"id":self.id,"w":case.w,"h":case.h,"ice":case.ice as u8,"nf":nf,"sauce":case.sauce as u8,"ml":case.ml as u8,
+                        "src":case.cells,"c":c,"r":r,"dc":dc,"dr":dr});
+        let i = (0..self.outs.len()).min_by_key(|&i| self.bytes[i]).unwrap();
+        self.bytes[i] += case.cells.len() * 40 + 200;
+        self.outs[i].ev(&ev);
+        *self.rows.entry(format!("{}:nf{}:w{}", case.k, nf, case.w)).or_insert(0) += case.h as u64;
+    }
+}
+
+/// restricted-growth strings of length w over at most `k` symbols (canonical representatives under renaming)
+fn rg_strings(w: usize, k: u8) -> Vec<Vec<u8>> {
+    fn rec(cur: &mut Vec<u8>, mx: u8, w: usize, k: u8, out: &mut Vec<Vec<u8>>) {
+        if cur.len() == w { out.push(cur.clone()); return; }
+        for s in 0..=(mx.min(k - 1)) {
+            cur.push(s);
+            rec(cur, if s == mx { mx + 1 } else { mx }, w, k, out);
+            cur.pop();
+        }
+    }
+    let mut out = vec![];
+    rec(&mut vec![], 0, w, k, &mut out);
+    out
+}
+
+/// Packs a stream of rows into buffers of at most `maxh` rows; a trailing one-row buffer is avoided so that a
+/// buffer never consists of font page 1 alone.
+struct Packer { k: &'static str, w: i32, maxh: usize, rows: Vec<u32>, nbuf: u64, ml_every: u64 }
+
+impl Packer {
+    fn push(&mut self, row: &[u32], sink: &mut Sink) {
+        self.rows.extend_from_slice(row);
+        if self.rows.len() >= (self.maxh + 1) * self.w as usize {
+            // keep one row back so that the last buffer is never a single row
+            let keep = self.rows.split_off(self.maxh * self.w as usize);
+            self.flush_rows(sink);
+            self.rows = keep;
+        }
+    }
+    fn flush_rows(&mut self, sink: &mut Sink) {
+        if self.rows.is_empty() { return; }
+        let h = self.rows.len() / self.w as usize;
+        let only_page1 = self.rows.iter().all(|c| (c >> 17) & 1 == 1);
+        if only_page1 {
+            // cannot happen with the enumeration orders used below (page is the fastest digit); keep the domain honest
+            eprintln!("c06: skipped a buffer using only font page 1 ({} rows)", h);
+            self.rows.clear();
+            return;
+        }
+        self.nbuf += 1;
+        let case = Case { k: self.k, w: self.w, h: h as i32, ice: self.nbuf % 2 == 0, cells: std::mem::take(&mut self.rows), sauce: false, ml: self.nbuf % self.ml_every == 1 % self.ml_every };
+        sink.emit(&case);
+    }
+    fn finish(&mut self, sink: &mut Sink) {
+        // at most maxh + 1 rows are pending
+        let h = self.rows.len() / self.w as usize;
+        if h > self.maxh {
+            let keep = self.rows.split_off((h - 2) * self.w as usize); // last buffer gets two rows
+            self.flush_rows(sink);
+            self.rows = keep;
+        }
+        self.flush_rows(sink);
+    }
+}
+
+struct Class { chars: Vec<u32>, attrs: Vec<[u32; 3]>, pages: Vec<u32> }
+
+fn class_of(v: &Value) -> Class {
+    let nums = |x: &Value| x.as_array().map(|a| a.iter().map(|n| n.as_u64().unwrap_or(0) as u32).collect::<Vec<u32>>()).unwrap_or_default();
+    Class {
+        chars: nums(&v["chars"]),
+        attrs: v["attrs"].as_array().map(|a| a.iter().map(|t| { let n = nums(t); [n[0], n[1], n[2]] }).collect()).unwrap_or_default(),
+        pages: nums(&v["pages"]),
+    }
+}
+
+/// every row of width w over the class (page = fastest digit of the first cell), restricted to `pages`
+fn enum_full(cl: &Class, pages: &[u32], w: usize, k: &'static str, sink: &mut Sink, maxh: usize, ml_every: u64) {
+    let alpha: Vec<u32> = cl.chars.iter().flat_map(|&c| cl.attrs.iter().flat_map(move |a| pages.iter().map(move |&p| pack(c, a[0], a[1], a[2], p)))).collect();
+    let n = alpha.len();
+    let mut digits = vec![0usize; w];
+    let mut p = Packer { k, w: w as i32, maxh, rows: vec![], nbuf: 0, ml_every };
+    let mut row = vec![0u32; w];
+    loop {
+        for i in 0..w { row[i] = alpha[digits[i]]; }
+        p.push(&row, sink);
+        let mut i = 0;
+        loop {
+            if i == w { p.finish(sink); return; }
+            digits[i] += 1;
+            if digits[i] < n { break; }
+            digits[i] = 0;
+            i += 1;
+        }
+    }
+}
+
+/// canonical representatives under renaming of characters, attributes and font pages (restricted-growth strings in
+/// each coordinate); `stride`/`phase` select every stride-th representative (seeded sample) when stride > 1
+fn enum_canon(cl: &Class, pages: &[u32], w: usize, k: &'static str, sink: &mut Sink, maxh: usize, ml_every: u64, stride: u64, phase: u64) -> u64 {
+    let rc = rg_strings(w, cl.chars.len() as u8);
+    let ra = rg_strings(w, cl.attrs.len() as u8);
+    let rp = rg_strings(w, pages.len() as u8);
+    let mut p = Packer { k, w: w as i32, maxh, rows: vec![], nbuf: 0, ml_every };
+    let mut row = vec![0u32; w];
+    let mut idx = 0u64;
+    let mut n = 0u64;
+    for cs in &rc {
+        for as_ in &ra {
+            for ps in &rp {
+                idx += 1;
+                if stride > 1 && idx % stride != phase % stride { continue; }
+                for i in 0..w {
+                    let a = cl.attrs[as_[i] as usize];
+                    row[i] = pack(cl.chars[cs[i] as usize], a[0], a[1], a[2], pages[ps[i] as usize]);
+                }
+                p.push(&row, sink);
+                n += 1;
+            }
+        }
+    }
+    p.finish(sink);
+    n
+}
+
+fn random_case(seed: u64, i: u64) -> Case {
+    let mut r = rng(seed, 60_000 + i);
+    let special = [63, 64, 65, 127, 128, 129];
+    let w: i32 = match i % 4 { 0 => special[(i / 4) as usize % 6], 1 => r.gen_range(1..=200), 2 => r.gen_range(1..=12), _ => r.gen_range(60..=140) };
+    let h: i32 = if r.gen_bool(0.3) { r.gen_range(1..=4) } else { r.gen_range(1..=30) };
+    let ice = r.gen_bool(0.5);
+    let two = r.gen_bool(0.5);
+    let style = r.gen_range(0..5);
+    let maxbg = if ice { 16 } else { 8 };
+    let maxfg = if two { 8 } else { 16 };
+    let rnd_cell = |r: &mut rand::rngs::StdRng| pack(r.gen_range(0..256), r.gen_range(0..maxfg), r.gen_range(0..maxbg), if ice { 0 } else { r.gen_range(0..2) }, if two { r.gen_range(0..2) } else { 0 });
+    // small alphabet (long runs): a few characters x a few attributes x pages, chosen independently per coordinate
+    let nch = r.gen_range(1..=4);
+    let nat = r.gen_range(1..=3);
+    let chars: Vec<u32> = (0..nch).map(|_| r.gen_range(0..256)).collect();
+    let attrs: Vec<(u32, u32, u32)> = (0..nat).map(|_| (r.gen_range(0..maxfg), r.gen_range(0..maxbg), if ice { 0 } else { r.gen_range(0..2) })).collect();
+    let keep = [0.5, 0.8, 0.95, 0.99][r.gen_range(0..4)];
+    let mut cells = Vec::with_capacity((w * h) as usize);
+    let (mut ci, mut ai, mut pi) = (0usize, 0usize, 0u32);
+    for _ in 0..(w * h) {
+        let c = match style {
+            0 => rnd_cell(&mut r), // full byte range, no runs
+            1 => { if r.gen_bool(0.9) && !cells.is_empty() { *cells.last().unwrap() } else { rnd_cell(&mut r) } } // full range with repeats
+            _ => {
+                // each coordinate keeps its value with probability `keep` (long character / attribute / full runs)
+                if !r.gen_bool(keep) { ci = r.gen_range(0..nch); }
+                if !r.gen_bool(keep) { ai = r.gen_range(0..nat); }
+                if two && !r.gen_bool(keep) { pi = r.gen_range(0..2); }
+                let a = attrs[ai];
+                pack(chars[ci], a.0, a.1, a.2, pi)
+            }
+        };
+        cells.push(c);
+    }
+    if two && cells.iter().all(|c| (c >> 17) & 1 == 1) {
+        cells[0] &= !(1 << 17); // a buffer using only the second font is not a 512-character picture
+    }
+    Case { k: "rnd", w, h, ice, cells, sauce: i % 5 == 0, ml: (w as i64) * (w as i64) * (h as i64) <= 120_000 }
+}
+
+/// `--case <replay.json>`: rebuild the buffer of one recorded event and run it again
+fn replay_case(path: &str) -> Case {
+    let text = std::fs::read_to_string(path).unwrap_or_else(|e| { eprintln!("c06: cannot read {path}: {e}"); std::process::exit(2) });
+    let v: Value = serde_json::from_str(&text).unwrap_or(Value::Null);
+    let e = if v["event"].is_object() { &v["event"] } else { &v };
+    let k = match e["k"].as_str().unwrap_or("") { "exh3" => "exh3", "exh2" => "exh2", _ => "rnd" };
+    Case { k, w: e["w"].as_i64().unwrap_or(1) as i32, h: e["h"].as_i64().unwrap_or(1) as i32, ice: e["ice"].as_u64().unwrap_or(0) == 1,
+           cells: e["src"].as_array().map(|a| a.iter().map(|n| n.as_u64().unwrap_or(0) as u32).collect()).unwrap_or_default(),
+           sauce: e["sauce"].as_u64().unwrap_or(0) == 1, ml: true }
+}
+
+pub fn c06(a: &Args) {
+    let prefix = a.str("out", "work/C06/trace");
+    let shards = a.usize("shards", 4).max(1);
+    let seed = a.u64("seed", 0);
+    if a.has("case") {
+        let mut sink = Sink { outs: vec![Out::create(&format!("{prefix}-0.ndjson"))], bytes: vec![0], id: 0, font1: second_font(), rows: Default::default() };
+        sink.emit(&replay_case(&a.str("case", "")));
+        sink.outs[0].flush();
+        return;
+    }
+    let thorough = a.str("tier", "quick") == "thorough";
+    let full3 = a.usize("full3", if thorough { 5 } else { 4 });     // widths <= full3: every row of the 3x3x2 class
+    let canon3 = a.usize("canon3", 7);                                // widths full3 < w <= canon3: canonical representatives
+    let stride6 = a.u64("stride6", if thorough { 1 } else { 16 });    // sampling stride for the canonical rows of width 6
+    let stride7 = a.u64("stride7", if thorough { 2 } else { 16 });    // ... and of width 7 (8.5 million representatives)
+    let full2 = a.usize("full2", if thorough { 10 } else { 8 });
+    let n_rnd = a.u64("random", if thorough { 2500 } else { 260 });
+    let maxh = a.usize("rows-per-buffer", 200);
+    let ml_every = a.u64("ml-every", 8);
+    let mut sink = Sink {
+        outs: (0..shards).map(|i| Out::create(&format!("{prefix}-{i}.ndjson"))).collect(),
+        bytes: vec![0; shards], id: 0, font1: second_font(), rows: Default::default(),
+    };
+    let gen = a.str("gen", "gen/xbin.ndjson");
+    let text = std::fs::read_to_string(&gen).unwrap_or_else(|e| { eprintln!("c06: cannot read {gen}: {e}"); std::process::exit(2) });
+    let mut classes = 0;
+    for line in text.lines() {
+        let Ok(v) = serde_json::from_str::<Value>(line) else { continue };
+        let w = v["w"].as_u64().unwrap_or(0) as usize;
+        let cl = class_of(&v);
+        classes += 1;
+        match v["kind"].as_str().unwrap_or("") {
+            "exh3" => {
+                if w <= full3 {
+                    enum_full(&cl, &cl.pages, w, "exh3", &mut sink, maxh, ml_every);
+                    enum_full(&cl, &cl.pages[..1], w, "exh3", &mut sink, maxh, ml_every);
+                } else if w <= canon3 {
+                    let stride = if w >= 7 { stride7 } else if w == 6 { stride6 } else { 1 };
+                    enum_canon(&cl, &cl.pages, w, "exh3", &mut sink, maxh, ml_every, stride, seed);
+                    enum_canon(&cl, &cl.pages[..1], w, "exh3", &mut sink, maxh, ml_every, 1, seed);
+                }
+            }
+            "exh2" => {
+                if w <= full2 {
+                    enum_full(&cl, &cl.pages, w, "exh2", &mut sink, maxh, ml_every);
+                } else {
+                    enum_canon(&cl, &cl.pages, w, "exh2", &mut sink, maxh, ml_every, 1, seed);
+                }
+            }
+            _ => {}
+        }
+    }
+    let exh_buffers = sink.id;
+    for i in 0..n_rnd {
+        sink.emit(&random_case(seed, i));
+    }
+    for o in sink.outs.iter_mut() { o.flush(); }
+    let summary = json!({"classes":classes,"buffers":sink.id,"exhaustive_buffers":exh_buffers,"random_buffers":n_rnd,"rows":sink.rows,
+                         "params":{"full3":full3,"canon3":canon3,"stride6":stride6,"stride7":stride7,"full2":full2,"rows_per_buffer":maxh}});
+    std::fs::write(format!("{prefix}-summary.json"), serde_json::to_string(&summary).unwrap()).unwrap();
+    eprintln!("c06: {} classes, {} buffers ({} exhaustive, {} random), {} rows", classes, sink.id, exh_buffers, n_rnd, sink.rows.values().sum::<u64>());
 }
